@@ -88,7 +88,7 @@ func (rs *ruleset) do2(name, body string, oracle func(o *oenv, s *site) string, 
 
 func (rs *ruleset) source() string {
 	var sb strings.Builder
-	sb.WriteString("package gorules\n\nimport (\n\t\"github.com/quasilyte/go-ruleguard/dsl\"\n\t\"github.com/quasilyte/go-ruleguard/dsl/types\"\n)\n\n")
+	sb.WriteString("package gorules\n\nimport (\n\t\"fmt\"\n\t\"strconv\"\n\t\"strings\"\n\n\t\"github.com/quasilyte/go-ruleguard/dsl\"\n\t\"github.com/quasilyte/go-ruleguard/dsl/types\"\n)\n\n")
 	for _, f := range rs.funcs {
 		sb.WriteString(f + "\n")
 	}
